@@ -232,7 +232,7 @@ impl<F: Float, L: Label + std::fmt::Debug> TreeNode<F, L> {
 
             // We keep a running total of the aggregate weight in the right split
             // to avoid having to sum over the hash map
-            let total_weight = parent_class_freq.values().sum::<f32>();
+            let total_weight = ordered_frequencies(&parent_class_freq).iter().sum::<f32>();
             let mut weight_on_right_side = total_weight;
             let mut weight_on_left_side = 0.0;
 
@@ -558,16 +558,17 @@ impl<F: Float, L: Label> DecisionTree<F, L> {
 
     /// Return features_idx of this tree (BFT)
     pub fn features(&self) -> Vec<usize> {
-        // vector of feature indexes to return
-        let mut fitted_features = HashSet::new();
+        // vector of feature indexes to return, in the order they are first met (BFT)
+        let mut seen = HashSet::new();
+        let mut fitted_features = Vec::new();
 
         for node in self.iter_nodes().filter(|node| !node.is_leaf()) {
-            if !fitted_features.contains(&node.feature_idx) {
-                fitted_features.insert(node.feature_idx);
+            if seen.insert(node.feature_idx) {
+                fitted_features.push(node.feature_idx);
             }
         }
 
-        fitted_features.into_iter().collect::<Vec<_>>()
+        fitted_features
     }
 
     /// Return the mean impurity decrease for each feature
@@ -652,8 +653,13 @@ fn make_prediction<F: Float, L: Label>(
 fn find_modal_class<L: Label>(class_freq: &HashMap<L, f32>) -> L {
     // TODO: Refactor this with fold_first
 
-    let val = class_freq
-        .iter()
+    // visit the classes in label order, so that ties are not broken by the
+    // (per-map, per-process) iteration order of the hash map
+    let mut classes: Vec<(&L, &f32)> = class_freq.iter().collect();
+    classes.sort_by(|a, b| a.0.cmp(b.0));
+
+    let val = classes
+        .into_iter()
         .fold(None, |acc, (idx, freq)| match acc {
             None => Some((idx, freq)),
             Some((_best_idx, best_freq)) => {
@@ -670,13 +676,22 @@ fn find_modal_class<L: Label>(class_freq: &HashMap<L, f32>) -> L {
     (*val).clone()
 }
 
+/// The class frequencies in label order. Floating-point sums over them must not follow the
+/// iteration order of the hash map, which differs between maps and between processes.
+fn ordered_frequencies<L: Label>(class_freq: &HashMap<L, f32>) -> Vec<f32> {
+    let mut classes: Vec<(&L, f32)> = class_freq.iter().map(|(l, f)| (l, *f)).collect();
+    classes.sort_by(|a, b| a.0.cmp(b.0));
+    classes.into_iter().map(|(_, f)| f).collect()
+}
+
 /// Given the class frequencies calculates the gini impurity of the subset.
 fn gini_impurity<L: Label>(class_freq: &HashMap<L, f32>) -> f32 {
-    let n_samples = class_freq.values().sum::<f32>();
+    let frequencies = ordered_frequencies(class_freq);
+    let n_samples = frequencies.iter().sum::<f32>();
     assert!(n_samples > 0.0);
 
-    let purity = class_freq
-        .values()
+    let purity = frequencies
+        .iter()
         .map(|x| x / n_samples)
         .map(|x| x * x)
         .sum::<f32>();
@@ -686,11 +701,12 @@ fn gini_impurity<L: Label>(class_freq: &HashMap<L, f32>) -> f32 {
 
 /// Given the class frequencies calculates the entropy of the subset.
 fn entropy<L: Label>(class_freq: &HashMap<L, f32>) -> f32 {
-    let n_samples = class_freq.values().sum::<f32>();
+    let frequencies = ordered_frequencies(class_freq);
+    let n_samples = frequencies.iter().sum::<f32>();
     assert!(n_samples > 0.0);
 
-    class_freq
-        .values()
+    frequencies
+        .iter()
         .map(|x| x / n_samples)
         .map(|x| if x > 0.0 { -x * x.log2() } else { 0.0 })
         .sum()
